@@ -523,8 +523,13 @@ def check_detection_cat(case, ctx):
     labels = [int(l) for l in np.unique(seg[seg > 0])]
     with warnings.catch_warnings():
         warnings.simplefilter('ignore')
+        # (the detection catalog's own local-background setting must not
+        # leak into the measurement catalog, which asks for none)
+        det_lbw = 4 if (case['aux_seed'] // 3) % 2 else 0
         det = SourceCatalog(data, SegmentationImage(seg.copy()), mask=mask,
-                            convolved_data=conv)
+                            convolved_data=conv, localbkg_width=det_lbw)
+        if det_lbw:
+            ctx.event('detection_cat_with_local_background')
         # the measurement catalog has its own mask (same, different or none)
         mk = case['aux_seed'] % 3
         if mk == 0:
